@@ -96,11 +96,12 @@ def observe(ll, xs, op):
     if name == "in":
         v = op[1]
         return both(lambda: bool(v in ll), lambda: v in xs)
-    if name == "eq_list":
-        other = list(xs) if op[1] else list(xs) + [1]
-        return both(lambda: bool(ll == other), lambda: xs == other)
-    if name == "eq_lazy":
-        other = list(xs) if op[1] else [9] + list(xs)
+    if name in ("eq_list", "eq_lazy"):
+        kind = op[1]
+        other = {True: list(xs), "same": list(xs), False: list(xs) + [1], "longer": list(xs) + [1], "prefix": list(xs[:-1]), "empty": [],
+                 "front": [9] + list(xs), "lastdiff": list(xs[:-1]) + [77] if xs else [77], "suffix": list(xs[1:])}[kind]
+        if name == "eq_list":
+            return both(lambda: bool(ll == other), lambda: xs == other)
         return both(lambda: bool(ll == LazyList(iter(other))), lambda: xs == other)
     if name == "count":
         v = op[1]
@@ -134,7 +135,8 @@ FIXED_OPS = [
     ("slice", 1, None, None), ("slice", None, -1, None), ("slice", 0, 2, None),
     ("slice", None, None, 2), ("slice", 1, None, 2),
     ("len",), ("iter",), ("partial", 1), ("partial", 2), ("bool",),
-    ("in", 1), ("in", 7), ("eq_list", True), ("eq_list", False), ("eq_lazy", True), ("eq_lazy", False),
+    ("in", 1), ("in", 7), ("eq_list", "same"), ("eq_list", "longer"), ("eq_list", "prefix"), ("eq_lazy", "same"), ("eq_lazy", "front"),
+    ("eq_lazy", "prefix"), ("eq_list", "empty"),
     ("count", 1), ("reversed",), ("copy", None), ("copy", 1),
     ("has_ind", 0, False), ("has_ind", -1, True), ("has_ind", 0, True), ("listify",),
 ]
@@ -346,9 +348,9 @@ def make_machine(rec):
         def contains(self, v):
             self._step(("in", v))
 
-        @rule(same=st.booleans(), lazy=st.booleans())
-        def equal(self, same, lazy):
-            self._step(("eq_lazy" if lazy else "eq_list", same))
+        @rule(kind=st.sampled_from(["same", "longer", "prefix", "empty", "front", "lastdiff", "suffix"]), lazy=st.booleans(), h=H)
+        def equal(self, kind, lazy, h):
+            self._step(("eq_lazy" if lazy else "eq_list", kind), h)
 
         @rule(v=ELEM)
         def count(self, v):
